@@ -351,6 +351,23 @@ def step (st : St) (op : List String) (impl : Option (List String)) : St × Stri
         | none, _ => "-"
       (st', showSolveS r, v)
     | _ => (st, "bad-op", "-")
+  | "invip" :: rest =>
+    -- `MatrixTools::inv(A, A)`: operand and output are the same object; the constructor has copied
+    -- `A` before `O` is resized and `A` is not read afterwards, so the call is `invS A A`
+    match parseMat rest with
+    | some (X, []) =>
+      let A := storeOf st.kX X
+      let r := invS A A
+      let st' := match r with
+        | .ok (_, O') => { st with X := O' }
+        | .error _ => { st with X := A }
+      let v := match impl, squareOf X with
+        | some t, some ⟨n, A⟩ =>
+          solveVerdict A (factor (Nat.le_refl n) A) (identity n : Mat Float n n) t
+        | some t, none => if t == ["exc:dimension"] then "ok" else "FAIL:inv_nonsquare_raises"
+        | none, _ => "-"
+      (st', showSolveS r, v)
+    | _ => (st, "bad-op", "-")
   | "det" :: rest =>
     match parseMat rest with
     | some (X, []) =>
